@@ -158,6 +158,7 @@ for _n in (1, 2, 3, 4):
 for _n in (2, 3):
     # a task of duration 0 is never running: it may start anywhere, also strictly inside another task
     SPACES[f"cumulative{_n}_dur013"] = (lambda i, n=_n: cplib.space_cumulative(i, n, None, (0, 1, 3)), lambda n=_n: cplib.size_cumulative(n))
+    SPACES[f"cumulative{_n}_dem02"] = (lambda i, n=_n: cplib.space_cumulative(i, n, None, (1, 2, 3), (0, 2)), lambda n=_n: cplib.size_cumulative(n))
 SPACES["cumulative4_window03"] = (lambda i: cplib.space_cumulative(i, 4, (0, 3)), lambda: cplib.size_cumulative(4, (0, 3)))
 SPACES["cumulative3_window05"] = (lambda i: cplib.space_cumulative(i, 3, (0, 5)), lambda: cplib.size_cumulative(3, (0, 5)))
 
@@ -301,6 +302,7 @@ def plan(tier, seed):
         ("cumulative2", 2, None),
         ("cumulative3", 8, (seed % 4, 4) if q else None),
         ("cumulative2_dur013", 2, None),
+        ("cumulative2_dem02", 2, None),
         ("cumulative3_dur013", 8, (seed % 4, 4) if q else None),
         ("cumulative4_window03", 8, (seed % 4, 4) if q else None),
         ("cumulative3_window05", 8, (seed % 4, 4) if q else None),
